@@ -7,6 +7,7 @@ import dataclasses
 import inspect
 from collections import Counter, defaultdict
 from collections.abc import Callable  # noqa: TC003 (sphinx needs unconditional import)
+from copy import deepcopy
 from enum import Enum
 from functools import cache
 from itertools import chain
@@ -130,7 +131,8 @@ class _EvalTransformer(ast.NodeTransformer):
                             ast.Expr(
                                 ast.Call(
                                     ast.Name(id="offdiag", ctx=ast.Load()),
-                                    [node.body[0].value],
+                                    # Both copies are transformed independently.
+                                    [deepcopy(node.body[0].value)],
                                     [],
                                 )
                             )
@@ -375,6 +377,9 @@ class _FunctionTransformer(ast.NodeTransformer):
         if node.func.id in ["_safe_divide", "_zero_sum"]:
             return self.generic_visit(node)
 
+        # Transform function calls nested in the arguments first. Series literals
+        # stay untouched by this and are handled below.
+        self.generic_visit(node)
         return self._visit_series_argument(node)
 
     def _visit_series_argument(self, node: ast.Call) -> ast.AST:
